@@ -30,7 +30,7 @@ vars == <<cfg, d, phase, i, page, fill, pageOf, out>>
 ---------------------------------------------------------------------------
 (* scenario space                                                          *)
 ---------------------------------------------------------------------------
-Cfg0 == [strat |-> "plain", n |-> 0, h |-> <<>>, nlev |-> 1, chg |-> <<>>, schg |-> <<>>, div |-> FALSE,
+Cfg0 == [strat |-> "plain", n |-> 0, h |-> <<>>, nlev |-> 1, chg |-> <<>>, schg |-> <<>>, div |-> "none",
          newpage |-> FALSE, pbrow |-> "column", pbhdr |-> TRUE, nrow |-> 1, hdr |-> "none",
          foot |-> "none", src |-> "none", ptitle |-> "all", pfoot |-> "last", psrc |-> "last",
          title |-> FALSE, subline |-> FALSE,
@@ -51,7 +51,7 @@ Dim(k, c) ==
     [] k = 4  -> <<"nlev", IF HasPB(c) THEN LevelSet ELSE {1}>>
     [] k = 5  -> <<"chg", {}>>      \* vector dimension
     [] k = 6  -> <<"schg", {}>>     \* vector dimension
-    [] k = 7  -> <<"div", IF HasPB(c) THEN DivSet ELSE {FALSE}>>
+    [] k = 7  -> <<"div", IF HasPB(c) THEN DivSet ELSE {"none"}>>
     [] k = 8  -> <<"newpage", IF HasPB(c) THEN NewPageSet ELSE {FALSE}>>
     [] k = 9  -> <<"pbrow", IF HasPB(c) /\ c.newpage THEN PbRowSet ELSE {"column"}>>
     [] k = 10 -> <<"pbhdr", PbHdrSet>>
